@@ -109,7 +109,7 @@ def quick_report(ctx, d, mod, cfg, executions, tag):
 
 def run(ctx):
     d = ctx.stage("Util")
-    exe = ctx.harness("vpmap_probe", ["harness/vpmap/vpmap_probe.c"])
+    exe = ctx.harness("vpmap_probe", ["harness/vpmap/vpmap_probe.c"], extra_ldflags=["-lhwloc"])
     mod, cfg = mcgen.write_mc(d, "vbox", "Vpmap", CONSTS, invariants=("WellFormed", "Emit"))
     r = ctx.tlc_check(d, mod, cfg, must_cover=("Resolve",), workers=2, timeout=900)
     box = [c for c in (tlc._parse_tla_string_list(l) for l in r.printed) if c]
@@ -172,7 +172,7 @@ def run(ctx):
 
 def replay(ctx, obj):
     d = ctx.stage("Util")
-    exe = ctx.harness("vpmap_probe", ["harness/vpmap/vpmap_probe.c"])
+    exe = ctx.harness("vpmap_probe", ["harness/vpmap/vpmap_probe.c"], extra_ldflags=["-lhwloc"])
     ev0 = obj["event"]
     ev = probe(ctx, exe, ev0.get("id", 1), ev0["c"])
     pmod, pcfg = mcgen.write_mc(d, "vtr_prop", "VpmapTrace", dict(CONSTS, Level_="prop"), spec="TSpec", invariants=("AcceptExit",))
